@@ -141,6 +141,8 @@ def field_order_tags(fn, expr, params, depth=4):
 
 def check(ctx):
     repo = ctx.repo
+    from . import generic as _gen
+    _gen.language_traps(ctx, _gen.anchor_functions(repo, "C14"), "the property holds for every input, on every call")
     ctx.rule("FWD-alias", "alias has the target's signature minus cls; single call of the declared target on every path; "
                           "every parameter forwarded under its own name; **kwargs forwarded")
     ctx.rule("FWD-live", "restriction and typing parameters of each reader are read on some path")
